@@ -255,7 +255,7 @@ class AckHarness(Harness):
                         raise Violation(f"message-lost-silently:{name}", f"{m} never delivered and no sender raised; faults={net.log}")
 
 
-FRAME_KINDS = ["syn", "syn2", "ack", "msg", "hdr", "raw", "garbage"]
+FRAME_KINDS = ["syn", "syn2", "ack", "msg", "hdr", "raw", "garbage", "zraw"]  # zraw: payload bytes that happen to be a complete zlib stream (a compressing serde)
 
 
 class Framing(Harness):
@@ -287,7 +287,7 @@ class Framing(Harness):
             syn = Syn(idx=1, addr="tcp://tx:9")
             raw = b"\x00\x01payload"
             enc = {"syn": serde.ser_message(syn), "syn2": serde.ser_message(Syn(idx=2, addr="tcp://tx:9")), "ack": serde.ser_message(Ack(idx=5)),
-                   "msg": serde.ser_message(msg), "hdr": pickle.dumps(hdr), "raw": raw, "garbage": b"\x80\x05nonsense"}
+                   "msg": serde.ser_message(msg), "hdr": pickle.dumps(hdr), "raw": raw, "garbage": b"\x80\x05nonsense", "zraw": __import__("zlib").compress(b"payload bytes of a dataset whose serde compresses" * 2)}
             kinds = [FRAME_KINDS[ch.pick(len(FRAME_KINDS), f"f{i}")] for i in range(params["n"])]
             frames = [enc[k] for k in kinds]
             already = ch.flag("syn_seen_before")
